@@ -20,6 +20,11 @@ pub mod verif_hooks {
     pub use crate::pipeline::tokenize::tokenize;
 }
 
+/// Verification seam (only compiled with `--cfg kiki_verif`):
+/// hash collections whose iteration order a harness can control.
+#[cfg(kiki_verif)]
+pub mod verif_collections;
+
 use pipeline::prelude::*;
 
 pub fn generate(src: &str) -> Result<RustSrc, KikiErr> {
